@@ -52,6 +52,9 @@ type verifOp struct {
 	// del / exec: the call is made with a request-scoped context that is cancelled as soon as the call has
 	// returned, i.e. before any retry of a failed delete fires
 	CtxC bool `json:"ctxc"`
+	// fault: the next SlowN failing DELs are held SlowMs milliseconds (real time) before they are answered
+	SlowMs int `json:"slowms"`
+	SlowN  int `json:"slown"`
 }
 
 type verifCase struct {
@@ -68,6 +71,10 @@ type verifCase struct {
 	// "abs": frozen wheel, the driver plays the abstract timer; "real": the cleaner runs on a real
 	// collection.TimingWheel (1 s x 300 slots) whose ticker is a fake one ticked by the driver
 	Wheel string `json:"wheel"`
+	// size of the cleaner's task runner (the package uses cleanWorkers = 5; the driver's default is 1)
+	Workers int `json:"workers"`
+	// the cache gets a statistics object of its own, created when the case starts (its one-minute ticker starts then)
+	FreshStat bool `json:"freshstat"`
 }
 
 type verifRow struct {
@@ -112,6 +119,8 @@ type verifRedis struct {
 	s       *miniredis.Miniredis
 	mu      sync.Mutex
 	g, w, d bool
+	slowMs  int // the next slowN failing DELs are answered only after slowMs milliseconds
+	slowN   int
 	hook    server.Hook
 }
 
@@ -138,6 +147,16 @@ func newVerifRedis() *verifRedis {
 			}
 		case "DEL":
 			if d {
+				r.mu.Lock()
+				slow := 0
+				if r.slowN > 0 {
+					r.slowN--
+					slow = r.slowMs
+				}
+				r.mu.Unlock()
+				if slow > 0 {
+					time.Sleep(time.Duration(slow) * time.Millisecond) // a Redis that answers (an error) only after the client gave up
+				}
 				c.WriteError(verifFaultMsg)
 				return true
 			}
@@ -263,6 +282,31 @@ func verifExec(key, val any) {
 	clean(key, dt)
 }
 
+// verifRunnerBarrier returns when every task scheduled on the cleaner's runner before has finished: it holds all
+// of the runner's slots at once.
+func verifRunnerBarrier(n int) {
+	if n <= 1 {
+		taskRunner.Schedule(func() {})
+		return
+	}
+	started := make(chan struct{}, n)
+	release := make(chan struct{})
+	for i := 0; i < n; i++ {
+		taskRunner.Schedule(func() {
+			started <- struct{}{}
+			<-release
+		})
+	}
+	for i := 0; i < n; i++ {
+		<-started
+	}
+	close(release)
+	taskRunner.Schedule(func() {}) // and the holders themselves are gone once one more slot could be taken n times
+	for i := 1; i < n; i++ {
+		taskRunner.Schedule(func() {})
+	}
+}
+
 // loopBarrier returns when the wheel's loop has handled everything sent to it before
 func verifLoopBarrier() { timingWheel.RemoveTimer("verif-barrier") }
 
@@ -299,7 +343,7 @@ func (r *verifRun) tickReal() {
 	fired := before - verifWheelSize(timingWheel)
 	held = false
 	verifHold.Unlock()
-	deadline = time.Now().Add(5 * time.Second)
+	deadline = time.Now().Add(r.patience)
 	for atomic.LoadInt64(&verifExecFinished) < done+int64(fired) {
 		if time.Now().After(deadline) {
 			r.aborted = true
@@ -307,7 +351,7 @@ func (r *verifRun) tickReal() {
 		}
 		runtime.Gosched()
 	}
-	taskRunner.Schedule(func() {}) // the last clean body has returned (its SetTimer is with the loop)
+	verifRunnerBarrier(r.workers) // the clean bodies have returned (their SetTimers are with the loop)
 	verifLoopBarrier()
 }
 
@@ -380,6 +424,8 @@ type verifRun struct {
 	nextID   []int
 	logs     [][]any
 	real     bool
+	workers  int
+	patience time.Duration
 	mu       sync.Mutex
 	armTicks []int
 	aborted  bool
@@ -558,6 +604,14 @@ func verifRunCase(c verifCase) any {
 	r.nextID = make([]int, r.nn)
 	r.logs = make([][]any, r.nn)
 	barrier := syncx.NewSingleFlight()
+	cstat := verifStat
+	if c.FreshStat {
+		cstat = NewStat(fmt.Sprintf("verif-%d", verifCaseNo))
+	}
+	watchdog := false
+	for _, op := range c.Ops {
+		watchdog = watchdog || op.Op == "idle"
+	}
 	for i := 0; i < r.nn; i++ {
 		verifServers[i].s.FlushAll()
 		verifServers[i].setFaults(false, false, false)
@@ -571,7 +625,7 @@ func verifRunCase(c verifCase) any {
 			r:              rand.New(rand.NewSource(1)),
 			lock:           new(sync.Mutex),
 			unstableExpire: mathx.VerifNewUnstable(expireDeviation, src),
-			stat:           verifStat,
+			stat:           cstat,
 			errNotFound:    errVerifNotFound,
 		})
 		r.logs[i] = []any{}
@@ -588,13 +642,13 @@ func verifRunCase(c verifCase) any {
 		}
 		var built Cache
 		if c.Ctor == "newnode" {
-			built = NewNode(redis.New(verifServers[0].s.Addr()), barrier, verifStat, errVerifNotFound, opts...)
+			built = NewNode(redis.New(verifServers[0].s.Addr()), barrier, cstat, errVerifNotFound, opts...)
 		} else {
 			var conf Config
 			for i := 0; i < r.nn; i++ {
 				conf = append(conf, NodeConfig{Config: redis.Config{Host: verifServers[i].s.Addr(), Type: redis.NodeType}, Weight: 100})
 			}
-			built = New(conf, barrier, verifStat, errVerifNotFound, opts...)
+			built = New(conf, barrier, cstat, errVerifNotFound, opts...)
 		}
 		found := map[string]node{}
 		switch b := built.(type) {
@@ -630,6 +684,12 @@ func verifRunCase(c verifCase) any {
 		r.cache = r.nodes[0]
 	}
 	r.real = c.Wheel == "real"
+	r.workers, r.patience = 1, 5*time.Second
+	if c.Workers > 1 && r.real {
+		r.workers, r.patience = c.Workers, 40*time.Second
+	}
+	taskRunner = threading.NewTaskRunner(r.workers)
+	defer func() { taskRunner = threading.NewTaskRunner(1) }()
 	timingWheel.Stop()
 	if r.real {
 		verifRealWheel()
@@ -646,16 +706,40 @@ func verifRunCase(c verifCase) any {
 	}()
 	ctx := context.Background()
 	var obs []any
+	hung := false
 	for _, op := range c.Ops {
+		if hung {
+			obs = append(obs, map[string]any{"r": "err:abandoned after a hanging read", "q": r.dbq, "dump": [][]any{}})
+			continue
+		}
 		r.flushBreaker()
 		for _, s := range r.srcs {
 			s.vals, s.i = op.U, 0
 		}
 		o := map[string]any{}
 		switch op.Op {
+		case "idle":
+			// nothing is asked of the cache for this long (real time)
+			time.Sleep(time.Duration(op.Dt) * time.Second)
+			o["r"] = "ok"
 		case "qrow", "qrowe":
 			var row verifRow
-			err := r.cache.TakeCtx(ctx, &row, r.keyName([]any{"pk", float64(op.ID)}), func(v any) error {
+			take := r.cache.TakeCtx
+			if watchdog {
+				// the read must return promptly; one that does not is reported and the case abandoned
+				take = func(ctx context.Context, val any, key string, query func(val any) error) error {
+					done := make(chan error, 1)
+					go func() { done <- r.cache.TakeCtx(ctx, val, key, query) }()
+					select {
+					case err := <-done:
+						return err
+					case <-time.After(10 * time.Second):
+						hung = true
+						return errors.New("verif: the read did not return within 10 s")
+					}
+				}
+			}
+			err := take(ctx, &row, r.keyName([]any{"pk", float64(op.ID)}), func(v any) error {
 				r.dbq++
 				if op.Op == "qrowe" {
 					return errVerifDB // the database answers an error other than not-found
@@ -763,6 +847,9 @@ func verifRunCase(c verifCase) any {
 			for i := 0; i < r.nn; i++ {
 				if op.Node < 0 || op.Node == i {
 					verifServers[i].setFaults(op.G, op.S, op.D)
+					verifServers[i].mu.Lock()
+					verifServers[i].slowMs, verifServers[i].slowN = op.SlowMs, op.SlowN
+					verifServers[i].mu.Unlock()
 				}
 			}
 			o["r"] = "ok"
